@@ -52,13 +52,17 @@ impl OutputManager {
         // The probe carries one of the tool's own (generated_*) names, so that it can never be a
         // file the user keeps in the output directory
         let test_file = self.output_dir.join("generated_write_test.tmp");
-        fs::write(&test_file, "test").map_err(|e| {
-            OutputError::PermissionDenied(format!(
-                "Cannot write to output directory {}: {}",
-                self.output_dir.display(),
-                e
-            ))
-        })?;
+        // (written like a generated file: an entry of that name that is a link is replaced, not
+        // written through)
+        crate::generators::base::file_writer::write_generated_file(&test_file, "test").map_err(
+            |e| {
+                OutputError::PermissionDenied(format!(
+                    "Cannot write to output directory {}: {}",
+                    self.output_dir.display(),
+                    e
+                ))
+            },
+        )?;
         fs::remove_file(&test_file).ok(); // Ignore errors on cleanup
 
         Ok(())
